@@ -61,6 +61,8 @@ def to_sqf(e):
     if k == 'switch': return '(switch %s do %s)' % (P(e[1]), block(e[2]))
     if k == 'try': return '(try %s catch %s)' % (block(e[1]), block(e[2]))
     if k == 'isnil': return '(isNil "%s")' % e[1]
+    if k == 'err': return ['([] select 5)', '([1] set [-1, 0])', '(call 5)', '("a" + 1)'][e[1]]
+    if k == 'except': return '(%s except__ %s)' % (block(e[1]), block(e[2]))
     if k == 'with': return '(with %s do %s)' % (e[1], block(e[2]))
     if k == 'getvar': return '(%s getVariable "%s")' % (e[1], e[2])
     if k == 'setvar': return '(%s setVariable ["%s", %s])' % (e[1], e[2], to_sqf(e[3]))
@@ -212,7 +214,7 @@ class Ref:
         if k == 'scopename': s.scopes[-1]['name'] = st[1].lower(); return None
         if k == 'breakout': raise _BreakOut(st[1], s.ev(st[2]) if st[2] is not None else None)
         if k == 'trace':
-            s.trace.append(snapshot(s.ev(st[1]))); return None
+            v = s.ev(st[1]); s.trace.append(snapshot(v)); return Arr([v])    # trace__ is a unary operator returning its operand
         return s.ev(st)
     def truth(s, c):
         if c.__class__ is S: return bool(c)       # forks / follows the path condition
@@ -340,6 +342,16 @@ class Ref:
                 return s.scope_result(e[2], {'_exception': t.value})
         if k == 'isnil':
             return s.lookup(e[1]) is None
+        if k == 'err': raise RefError('injected erroring operation %d' % e[1])
+        if k == 'except':
+            depth = len(s.scopes); nsd = len(s.ns_stack); swd = len(getattr(s, '_switch_stack', []))
+            try:
+                return s.scope_result(e[1])
+            except RefError as er:
+                del s.scopes[depth:]; del s.ns_stack[nsd:]
+                if hasattr(s, '_switch_stack'): del s._switch_stack[swd:]
+                s.handled = getattr(s, 'handled', 0) + 1
+                return s.scope_result(e[2], {'_exception': ('errtext',)})
         if k == 'with':
             s.ns_stack.append(e[1].lower())
             try: return s.scope_result(e[2])
@@ -417,6 +429,11 @@ class Ref:
                 a, code = s.spawned.pop(0)
                 saved = (s.scopes, s.ns_stack); s.scopes = []; s.ns_stack = ['missionnamespace']
                 try: s.run_block(code, {'_this': a})
+                except RefError as e:
+                    # an unhandled error in any script ends the run (the property: 'without a handler, the run ends and is reported as failed')
+                    s.spawn_errors = getattr(s, 'spawn_errors', 0) + 1
+                    s.scopes, s.ns_stack = saved
+                    return ('error', 'in spawned script: ' + str(e))
                 finally: s.scopes, s.ns_stack = saved
             return ('ok', v)
         except RefError as e: return ('error', str(e))
@@ -452,6 +469,8 @@ def same(vmv, refv):
             return a == b
         return vmv == refv
     if isinstance(refv, bytes): return isinstance(vmv, bytes) and vmv == refv
+    if isinstance(refv, tuple) and refv[0] == 'errtext': return vmv is not None
+    if isinstance(refv, tuple) and refv[0] == 'script': return True
     if isinstance(refv, tuple) and refv[0] == 'code':
         return isinstance(vmv, tuple) and vmv[0] == 'code'
     return False
